@@ -30,6 +30,7 @@ import SoyVerif.Model.Parser
 import SoyVerif.Model.Lexer
 import SoyVerif.Model.RawText
 import SoyVerif.Base.Utf8
+import SoyVerif.Base.F64
 
 namespace SoyVerif.Model.FileParser
 open SoyVerif SoyVerif.Model SoyVerif.Model.Parser
@@ -1058,5 +1059,21 @@ def parseSource (pf : Bytes → Option UInt64) (input : Bytes) : Except FErr (Li
   | .items is => parseFile pf (exprFuel is) is
   | .panic => .error .panic
   | .fuelOut => .error .fuelOut
+
+/-- `strconv.ParseFloat(tok.val, 64)` on a float token through the soft-float of Base/F64.lean
+    (`F64.parseDecimal`, tied to strconv by the C20f64 op `f64parse`): the bits, or `none` for a
+    range error (overflow to ±Inf).  This is the `pf` the protocol operations use, so the
+    parser correspondences need no float bits from the harness. -/
+def parseFloat64 (s : Bytes) : Option UInt64 :=
+  let (neg, digits) := match s with
+    | 45 :: r => (true, r)
+    | 43 :: r => (false, r)
+    | r => (false, r)
+  match F64.parseDecimal digits with
+  | some f => if f.isInf then none else some (if neg then (F64.neg f).bits else f.bits)
+  | none => none
+
+/-- `parse.SoyFile(name, input)` with Go's float parsing: the whole front end as one function -/
+def soyFile (input : Bytes) : Except FErr (List Node) := parseSource parseFloat64 input
 
 end SoyVerif.Model.FileParser
